@@ -46,6 +46,12 @@ def insertSorted (a : Nat) : List Nat → List Nat
   | b :: bs => if a ≤ b then a :: b :: bs else b :: insertSorted a bs
 def sortNodes (l : List Nat) : List Nat := l.foldr insertSorted []
 
+/-- a Python `set` of nodes as its strictly increasing list -/
+def insertUniq (a : Nat) : List Nat → List Nat
+  | [] => [a]
+  | b :: bs => if a < b then a :: b :: bs else if a = b then b :: bs else b :: insertUniq a bs
+def nodeSet (l : List Nat) : List Nat := l.foldr insertUniq []
+
 /-- one side of a hyperedge as written by the caller: an iterable of nodes or a bare node -/
 inductive Side
   | nodes (l : List Node)
@@ -535,10 +541,10 @@ def incident (s : Store) (n : Node) (f : Filt) : Option (List Key) :=
   | some a, some b => some (a ++ b)
   | _, _ => none
 
-/-- `get_neighbors`: the set of the other nodes of the incident hyperedges, as a sorted duplicate-free list -/
+/-- `get_neighbors`: the set of the other nodes of the incident hyperedges, as a strictly increasing list -/
 def neighbors (s : Store) (n : Node) (f : Filt) : Option (List Node) :=
   if !(AL.has s.adjS n) || !(AL.has s.adjT n) then none else
-  (incident s n f).map (fun ks => sortNodes (((ks.flatMap (fun k => k.1 ++ k.2)).filter (· != n)).eraseDups))
+  (incident s n f).map (fun ks => nodeSet ((ks.flatMap (fun k => k.1 ++ k.2)).filter (· != n)))
 
 def degree (s : Store) (n : Node) (f : Filt) : Option Nat := (incident s n f).map List.length
 def inDegree (s : Store) (n : Node) (f : Filt) : Option Nat := (sourceEdges s n f).map List.length
@@ -577,7 +583,7 @@ def maxSize (s : Store) : Option Nat :=
 def maxOrder (s : Store) : Option Int := (maxSize s).map (fun m => (m : Int) - 1)
 /-- `is_uniform`: compares `len(set(source) | set(target))` -/
 def isUniform (s : Store) : Bool :=
-  match (AL.keys s.edgeList).map (fun k => (k.1 ++ k.2).eraseDups.length) with
+  match (AL.keys s.edgeList).map (fun k => (nodeSet (k.1 ++ k.2)).length) with
   | [] => true
   | a :: l => l.all (· == a)
 
@@ -817,7 +823,7 @@ def incident (s : Spec) (n : Node) (f : Filt) : Option (List Key) :=
   | some a, some b => some (a ++ b)
   | _, _ => none
 def neighbors (s : Spec) (n : Node) (f : Filt) : Option (List Node) :=
-  (incident s n f).map (fun ks => sortNodes (((ks.flatMap (fun k => k.1 ++ k.2)).filter (· != n)).eraseDups))
+  (incident s n f).map (fun ks => nodeSet ((ks.flatMap (fun k => k.1 ++ k.2)).filter (· != n)))
 def degree (s : Spec) (n : Node) (f : Filt) : Option Nat := (incident s n f).map List.length
 def inDegree (s : Spec) (n : Node) (f : Filt) : Option Nat := (sourceEdges s n f).map List.length
 def outDegree (s : Spec) (n : Node) (f : Filt) : Option Nat := (targetEdges s n f).map List.length
@@ -845,6 +851,21 @@ def isIsolated (s : Spec) (n : Node) (f : Filt) : Option Bool :=
   | some _ => (neighbors s n f).map List.isEmpty
 
 end Spec
+
+/-- several abstract objects: slots, constructor, copy (mirror of `step`) -/
+def Spec.step (st : List (Nat × Spec)) : Cmd → List (Nat × Spec) × Out
+  | .new slot w hm nm es ws mds =>
+    match Spec.ctor w hm nm es ws mds with
+    | (s, .ok) => (AL.set st slot s, .ok)
+    | (_, .rej) => (st, .rej)
+  | .copy a b =>
+    match AL.get? st a with
+    | some s => (AL.set st b s, .ok)
+    | none => (st, .rej)
+  | .op slot o =>
+    match AL.get? st slot with
+    | some s => let r := Spec.applyOp s o; (AL.set st slot r.1, r.2)
+    | none => (st, .rej)
 
 /-- abstraction: forget ids and adjacency -/
 def abs (s : Store) : Spec :=
